@@ -1516,6 +1516,17 @@ def mutate(rng, text):
     return ''.join(l)
 
 
+def straddle_text(rng):
+    """a document whose UTF-8 form has a multi-byte character lying across a multiple of the 4096-byte read buffer:
+    in character data, in an attribute value, in a comment, in a processing instruction or in a tag name"""
+    ch = rng.choice(['\xe9', '\u20ac', '\u3000', '\U0001d400', '\u03a3', '\xa0'])
+    opener, closer = rng.choice([('', ''), ('<a title="v', '">t</a>'), ('<!-- c', ' -->'), ('<?php ', ' x ?>'), ('<x', ' y>z</x>'), ('&amp;', ';')])
+    m = rng.choice([1, 1, 2])
+    k = rng.randrange(1, len(ch.encode('utf-8')))          # bytes of the character before the boundary
+    fill = 4096 * m - k - len(opener) - 3
+    return '<p>' + rng.choice(['x', 'q', ' ']) * fill + opener + ch + closer + G.soup(rng, 3)
+
+
 def gen_cases(rng, n, big=1):
     cases = []
     for _ in range(n):
@@ -1567,6 +1578,10 @@ def gen_cases(rng, n, big=1):
             cases.append({'kind': 'syn-xml', 'script': gen_syn_xml(rng)})
     for _ in range(big):
         cases.append({'kind': 'html', 'text': G.big_html(rng, rng.choice([4090, 4200, 8300, 12400]))})
+        # a multi-byte character across the 4096-byte read: the codec reader has to keep the incomplete bytes
+        text = straddle_text(rng)
+        cases.append({'kind': 'html', 'text': text, 'straddle': True})
+        cases.append({'kind': 'html-bytes', 'hex': text.encode('utf-8').hex(), 'encoding': 'utf-8', 'sizes': [4096], 'straddle': True})
         cases.append({'kind': 'html', 'text': G.boundary_html(rng, rng.choice([4096, 4096, 8192]))})
         doc = G.gen_xml_tree(rng)
         filler = {'k': 'e', 'name': ['', 'filler'], 'ns': [], 'attrs': [], 'kids': [
@@ -1945,6 +1960,7 @@ def shard(arg):
     cases = gen_cases(rng, n, big)
     cases += prefix_cases(rng, nprefix)
     process(cases, res)
+    res.count('gen:multibyte-char-across-4096-byte-read', sum(1 for c in cases if c.get('straddle')))
     process_env(gen_env_jobs(rng, max(20, n // 4)), res)
     res.samples = [c for c in cases if c['kind'] in ('html', 'xml-text') and len(json.dumps(c)) < 300][:2]
     return res
